@@ -50,7 +50,7 @@ def benign_const(rnd):
     if r < 0.78:
         return None
     if r < 0.83:
-        return decimal.Decimal(rnd.choice(["1.10", "-2.5", "100"]))
+        return decimal.Decimal(rnd.choice(["1.10", "-2.5", "100", "123456789.123456789", "0.000001234567", "1E+2", "98765432109876543210.5"]))
     if r < 0.88:
         return dt.date(2020, rnd.randint(1, 12), rnd.randint(1, 28))
     if r < 0.92:
